@@ -34,6 +34,18 @@ type RoCase struct {
 	Calls   []RoCall  `json:"calls"`
 	Clients int       `json:"clients"`
 	Conc    bool      `json:"conc"` // clients run concurrently with the applier (else phases alternate)
+	// StopAt > 0: the replication manager is stopped (as a server shutting down
+	// does first) after that many client calls - sequential mode - or that many
+	// virtual milliseconds - concurrent mode; clients keep calling
+	StopAt int `json:"stop_at,omitempty"`
+}
+
+// unreachablePrimary is the connector of a replica whose primary is not there.
+type unreachablePrimary struct{}
+
+func (unreachablePrimary) Connect(r *replication.Replica) error {
+	simrt.Sleep(200 * time.Millisecond)
+	return fmt.Errorf("failed to connect to primary at primary.example:50052: connection refused")
 }
 
 type RoCall struct {
@@ -94,7 +106,28 @@ func runC16(t *testing.T, c RoCase) *kit.Result {
 			return
 		}
 		mgr, _ := replication.NewManager(e, &replication.ManagerConfig{Enabled: true, Mode: replication.ReplicationModeReplica, PrimaryAddr: "primary.example:50052", ListenAddr: "replica.example:50053", ForceReadOnly: true})
-		e.SetReadOnly(true) // what Manager.startReplica does before it connects
+		started := false
+		if replication.VerifHooked {
+			// the manager itself starts the replica (which keeps trying to reach
+			// a primary that is not there) and makes the engine read-only
+			replication.VerifNewConnector = func() replication.PrimaryConnector { return unreachablePrimary{} }
+			replication.VerifWrapApplier = nil
+			if err := mgr.Start(); err != nil {
+				res.V = &kit.Violation{Kind: "open-error", Signature: "open-error:replication-manager", Detail: err.Error()}
+				return
+			}
+			started = true
+		} else {
+			e.SetReadOnly(true) // what Manager.startReplica does before it connects
+		}
+		stopped := false
+		stopManager := func() {
+			if started && !stopped {
+				stopped = true
+				simrt.Note("replication manager stops")
+				mgr.Stop()
+			}
+		}
 		applier := replication.NewEngineApplier(e)
 		reg := transaction.NewRegistryWithTTL(5*time.Minute, 2*time.Minute, 75, 90)
 		svc := service.NewKevoServiceServer(e, reg, mgr)
@@ -294,6 +327,9 @@ func runC16(t *testing.T, c RoCase) *kit.Result {
 					ai++
 				}
 				for n := 0; n < 4 && ci < len(c.Calls) && res.V == nil; n++ {
+					if c.StopAt > 0 && ci >= c.StopAt {
+						stopManager()
+					}
 					doCall(c.Calls[ci], true)
 					ci++
 				}
@@ -310,6 +346,14 @@ func runC16(t *testing.T, c RoCase) *kit.Result {
 					applyOne(i, op)
 				}
 			})
+			if c.StopAt > 0 {
+				wg.Add(1)
+				simrt.GoNamed("shutdown", func() {
+					defer wg.Done()
+					simrt.Sleep(time.Duration(c.StopAt) * time.Millisecond)
+					stopManager()
+				})
+			}
 			per := (len(c.Calls) + c.Clients - 1) / max(c.Clients, 1)
 			for ci := 0; ci < c.Clients; ci++ {
 				lo, hi := ci*per, min((ci+1)*per, len(c.Calls))
@@ -344,6 +388,10 @@ func runC16(t *testing.T, c RoCase) *kit.Result {
 		res.Probes["refused_with_read_only_error"] += int64(refused)
 		res.Nontrivial = m.Len() >= 1 && mutatingCalls >= 1
 		res.Note = fmt.Sprintf("%d replicated entries, %d client calls over %d engine + %d service methods, %d mutating calls, %d refused as read-only, concurrent=%v", len(c.Applied), len(c.Calls), len(engMethods), len(svcMethods), mutatingCalls, refused, c.Conc)
+		stopManager()
+		if res.V == nil && !e.IsReadOnly() {
+			fail(&kit.Violation{Kind: "replica-left-writable", Signature: "replica-left-writable:after-stop", Detail: "stopping replication made the replica engine writable while the node keeps serving clients"})
+		}
 		reg.GracefulShutdown(context.Background())
 		e.Close()
 	})
@@ -360,6 +408,9 @@ func TestC16(t *testing.T) {
 		ID: "C16",
 		Gen: func(r *kit.Rand, tier string) RoCase {
 			c := RoCase{Sched: kit.GenSched(r, kit.PickOf(r, "conc", "dense")), Knobs: kit.GenKnobs(r), Clients: r.Range(1, 3), Conc: r.Bool(0.5)}
+			if r.Bool(0.3) {
+				c.StopAt = r.Range(1, 12)
+			}
 			c.Sched.MaxVirtS = 3600
 			keys := [][]byte{[]byte("rk0"), []byte("rk1"), []byte("rk2"), []byte("replicated-only")}
 			var tag uint32
@@ -395,6 +446,6 @@ func TestC16(t *testing.T) {
 			return out
 		},
 		Strip: func(c RoCase) any { d := c; d.Sched = kit.Sched{}; return d },
-		Rule:  "a replica engine (read-only flag set, real EngineApplier) receives 1-14 replicated puts/deletes/merges while 2-24 client calls are made to methods picked from the run-time method sets of *engine.EngineFacade and the service server (bypass methods *Internal, Close, SetReadOnly, GetWAL excluded and listed in the evidence), arguments synthesised from the parameter types; either alternating phases with the full-scan fingerprint compared with the model of replicated operations after every client call, or concurrently (applier task + 1-3 client tasks, conc/dense scheduling) with the comparison at the end - this explores the applier's SetReadOnly(false)...SetReadOnly(true) window of merge entries. Calls classified mutating must return a read-only error; GetNodeInfo must report role, primary address and read-only flag of the configuration. non-trivial = >=1 replicated entry and >=1 mutating call",
+		Rule:  "a replica engine (read-only flag set, real EngineApplier) receives 1-14 replicated puts/deletes/merges while 2-24 client calls are made to methods picked from the run-time method sets of *engine.EngineFacade and the service server (bypass methods *Internal, Close, SetReadOnly, GetWAL excluded and listed in the evidence), arguments synthesised from the parameter types; either alternating phases with the full-scan fingerprint compared with the model of replicated operations after every client call, or concurrently (applier task + 1-3 client tasks, conc/dense scheduling) with the comparison at the end - this explores the applier's SetReadOnly(false)...SetReadOnly(true) window of merge entries. Calls classified mutating must return a read-only error; GetNodeInfo must report role, primary address and read-only flag of the configuration. The real replication.Manager starts the replica (primary unreachable) and in 30% of the cases is stopped part-way while clients keep calling: the node must stay read-only. non-trivial = >=1 replicated entry and >=1 mutating call",
 	})
 }
